@@ -126,6 +126,7 @@ var controls = []control{
 	{"yield-type-check-swapped", []string{"C11"}, false, "rewriter/yield_rewrite.go", "types.AssignableTo(v, t)", "types.AssignableTo(t, v)", "RW.YIELDTYPE"},
 	{"spec-doc-comments-not-collected", []string{"C13"}, false, "rewriter/rewrite.go", "\t\tcase *ast.ValueSpec:\n\t\t\tadd(n.Doc, n.Comment)\n", "", "RW.COMMENTS"},
 	{"comments-merged-in-reverse-order", []string{"C13"}, false, "rewriter/rewrite.go", "return zs[i].Pos() < zs[j].Pos()", "return zs[i].Pos() > zs[j].Pos()", "RW.COMMENTS"},
+	{"trivial-else-if-pushed-into-its-else-block", []string{"C11"}, false, "rewriter/yield_rewrite.go", "\t\tr.rewriteIfStmt(alt, els)\n\t\tisTrival := body.mustNoYield() && els.mustNoYield()\n\t\tif isTrival {\n\t\t\tchildren.push(stmt, kindTrival)", "\t\tr.rewriteIfStmt(alt, els)\n\t\tisTrival := body.mustNoYield() && els.mustNoYield()\n\t\tif isTrival {\n\t\t\tels.push(stmt, kindTrival)", "RW.DISPATCH"},
 	{"trivial-switch-tagged-delay", []string{"C11"}, false, "rewriter/yield_rewrite.go", "\t\tchildren = r.combineIfNecessary(children) // for init containing yield\n\t\tchildren.push(switchStmt, kindTrival)", "\t\tchildren = r.combineIfNecessary(children) // for init containing yield\n\t\tchildren.push(switchStmt, kindDelay)", "RW.BLOCKSTATE"},
 	{"incdec-unknown-to-break-scan", []string{"C11"}, false, "rewriter/return.go", "*ast.IncDecStmt, *ast.AssignStmt, *ast.GoStmt, *ast.DeferStmt,\n\t\t*ast.RangeStmt /*range empty*/ :\n\t\t// no chance", "*ast.AssignStmt, *ast.GoStmt, *ast.DeferStmt,\n\t\t*ast.RangeStmt /*range empty*/ :\n\t\t// no chance", "RW.EXH"},
 	{"switch-break-rewrite-enters-loops", []string{"C01"}, false, "rewriter/yield_rewrite.go", "\t\tcase *ast.ForStmt, *ast.RangeStmt, *ast.SwitchStmt, *ast.TypeSwitchStmt,\n\t\t\t*ast.SelectStmt, *ast.FuncLit:\n\t\t\treturn false // a break in there refers to that stmt", "\t\tcase *ast.SwitchStmt, *ast.TypeSwitchStmt,\n\t\t\t*ast.SelectStmt, *ast.FuncLit:\n\t\t\treturn false // a break in there refers to that stmt", "RW.SCOPEAGREE"},
